@@ -15,6 +15,12 @@ REPLAY = R("replay", "^TestReplay$", timeout=300)
 PLAN = {
     "C17": dict(
         pkg="c17", level="exploration",
+        technique="exhaustive small-alphabet enumeration + rapid random generation + native fuzzing against a split-and-stack reference implementation",
+        level_text="Every string over two 4-symbol alphabets up to a bounded length is compared with an independent lexical "
+                   "reference, plus random long inputs around the 128-byte buffer switch and arbitrary bytes; idempotence and "
+                   "the redirect guard are checked on the same inputs. Exhaustive below the bound, sampled above it.",
+        level_note="Trusts the 20-line reference in harness/ref/cleanpath.go as the meaning of 'canonical form'; absence of "
+                   "violations beyond the enumerated bound is sampled, not proven.",
         rule="inputs: every string over {/ . a %} and over {/ . a e-acute} up to the bound in notes, rapid-generated 90-300 byte "
              "token strings around the 128-byte buffer switch, arbitrary bytes, and router requests for the redirect guard; "
              "non-trivial = the input contains an empty, '.' or '..' element (distinct by input string), or a redirect-guard case "
@@ -29,3 +35,8 @@ PLAN = {
                   dict(name="fuzz", fuzz="FuzzCleanPath", fuzztime="90s")],
     ),
 }
+
+HOOK_COMMITS = []
+
+_TODO = "check not built yet in this round (harness under construction); planned, see DESIGN.md section 4"
+NOT_APPLICABLE = {p: _TODO for p in ["C%02d" % i for i in range(1, 21)]}
